@@ -1,3 +1,6 @@
 import JominiModel.Props.C08
 open Jomini.Props.C08
 #print axioms C08_lexeme_ids_measured
+#print axioms C08_codec
+#print axioms C08_codec_exclusions
+#print axioms C08_prefix_stable
